@@ -4,6 +4,7 @@ import (
 	"go/ast"
 	"go/token"
 	"go/types"
+	"golang.org/x/tools/go/packages"
 	"strings"
 )
 
@@ -126,6 +127,10 @@ func checkToIrType(c *Check, classes []*DT) {
 	}
 	in, mk := newGeneratorInterp(L)
 	delete(in.Models, "compiler.(*compiler).toIrType")
+	// declaring a Kombination type on demand is not what this rule looks at (R2.9 does): the declaration is a no-op here
+	in.Models["compiler.(*compiler).defineOrDeclareStructType"] = func(in *Interp, pkg *packages.Package, call *ast.CallExpr, recv Val, args []Val) (Val, bool) {
+		return TupleV(nil), true
+	}
 	all := append([]*DT{}, classes...)
 	for _, d := range classes {
 		if d.Kind != "VOID" && d.Kind != "LIST" {
